@@ -127,7 +127,20 @@ struct collector<fcppt::unit>
 }
 namespace
 {
+// A continuation that takes its parameter BY VALUE (used with rvalue arguments only): if the library
+// hands it an lvalue instead of forwarding the rvalue element, the parameter is copy-initialised by the
+// library's call expression and the log shows a copy of an rvalue element.
+struct byval
+{
+  template <class X>
+  X operator()(X x) const
+  {
+    return X(std::move(x));
+  }
+};
+#define C05_BYVAL "/by-value-continuation"
 unsigned nmax() { return vf::tier(4U, 7U); } // dynamic sizes 0 .. nmax()-1
+unsigned rounds() { return vf::tier(1U, 3U); }
 
 template <class Tuple, std::size_t... I>
 void reg_args(case_t &cx, Tuple const &args, int const *cats, std::vector<int> &all, std::index_sequence<I...>)
@@ -220,7 +233,8 @@ void nary(std::string const &entry, unsigned nshapes, Mk mk, Call call, Post pos
     {
     std::string const cats = cats_str(decltype(cs)::value...);
     for (unsigned sh = 0; sh < nshapes; ++sh)
-      run_case(entry, cats, "shape=" + std::to_string(sh), [&](case_t &cx) {
+     for (unsigned round = 0; round < rounds(); ++round) // further rounds: other payload ids and random choices
+      run_case(entry, cats, "shape=" + std::to_string(sh) + (round ? " round=" + std::to_string(round) : std::string()), [&](case_t &cx) {
         auto args = mk(cx, sh);
         int const cat_arr[N] = {decltype(cs)::value...};
         std::vector<int> all;
@@ -303,6 +317,15 @@ void t_map(std::string const &inst)
       "algorithm::map<" + inst + ">", shapes_of<Src>(),
       [](case_t &cx, unsigned n) { return std::make_tuple(src_traits<Src>::make(cx, n)); },
       [](auto c0, auto &a) { return fcppt::algorithm::map<Tgt>(FW(c0, a), conv<E>{}); });
+}
+
+template <class Src, class Tgt>
+void t_map_byval(std::string const &inst)
+{
+  nary<1>(
+      "algorithm::map<" + inst + ">" C05_BYVAL, shapes_of<Src>(),
+      [](case_t &cx, unsigned n) { return std::make_tuple(src_traits<Src>::make(cx, n)); },
+      [](auto c0, auto &a) { return fcppt::algorithm::map<Tgt>(FW(c0, a), byval{}); }, keep_all{}, only_rvalues{});
 }
 
 template <class Src>
@@ -454,6 +477,15 @@ void t_move_range(std::string const &inst)
       cx.end();
       cx.result_of(r, &all);
     });
+    run_case("container::make_move_range<" + inst + ">+algorithm::map" C05_BYVAL, "R", "n=" + std::to_string(n), [&](case_t &cx) {
+      Src a = src_traits<Src>::make(cx, n);
+      std::vector<int> all = payloads_of(snapshot(a));
+      cx.arg(0, cat_r, a);
+      cx.begin();
+      std::vector<E> r = fcppt::algorithm::map<std::vector<E>>(fcppt::container::make_move_range(std::move(a)), byval{});
+      cx.end();
+      cx.result_of(r, &all);
+    });
     run_case("container::make_move_range<" + inst + ">+algorithm::fold", "R", "n=" + std::to_string(n), [&](case_t &cx) {
       Src a = src_traits<Src>::make(cx, n);
       std::vector<int> all = payloads_of(snapshot(a));
@@ -485,6 +517,10 @@ void vf_slice_0()
   t_map<std::vector<E>, std::deque<E>>("vector->deque");
   t_map<std::vector<E>, std::list<E>>("vector->list");
   t_map<std::list<E>, std::deque<E>>("list->deque");
+  t_map_byval<std::vector<E>, std::vector<E>>("vector->vector");
+  t_map_byval<std::list<E>, std::vector<E>>("list->vector");
+  t_map_byval<fa3, std::vector<E>>("fcppt::array3->vector");
+  t_map_byval<fa3, fa3>("fcppt::array3->fcppt::array3");
 
   t_map_optional<std::vector<E>>("vector");
   t_map_optional<std::list<E>>("list");
@@ -816,11 +852,15 @@ void vf_slice_1()
   t_join3<std::vector<E>>("vector", mkvec);
   t_join2<std::deque<E>>("deque", mkdeq);
   t_join2<std::list<E>>("list", mklist);
+#ifndef C05_MO
   {
     // std::set is not among the registered container kinds: its elements are const, so join can only copy them
     observed_scope const os;
     t_join2<std::set<E>>("set", mkset);
   }
+#else
+  (void)mkset;
+#endif
   t_pop<std::vector<E>, true>("vector");
   t_pop<std::deque<E>, true>("deque");
   t_pop<std::list<E>, true>("list");
@@ -887,6 +927,18 @@ void t_optional_unary()
 {
   auto mk1 = [](case_t &cx, unsigned sh) { return std::make_tuple(mk_opt(cx, sh == 1)); };
   nary<1>("optional::map", 2, mk1, [](auto c0, auto &a) { return fcppt::optional::map(FW(c0, a), conv<E>{}); });
+  nary<1>("optional::map" C05_BYVAL, 2, mk1, [](auto c0, auto &a) { return fcppt::optional::map(FW(c0, a), byval{}); }, keep_all{},
+          only_rvalues{});
+  nary<1>("optional::bind" C05_BYVAL, 2, mk1,
+          [](auto c0, auto &a) { return fcppt::optional::bind(FW(c0, a), [](E x) { return oE{std::move(x)}; }); }, keep_all{},
+          only_rvalues{});
+  nary<1>("optional::maybe_void" C05_BYVAL, 2, mk1,
+          [](auto c0, auto &a) {
+            std::vector<E> sink;
+            fcppt::optional::maybe_void(FW(c0, a), [&sink](E x) { sink.push_back(std::move(x)); });
+            return sink;
+          },
+          keep_all{}, only_rvalues{});
   nary<1>("optional::map/to-other-type", 2, mk1, [](auto c0, auto &a) { return fcppt::optional::map(FW(c0, a), conv<F>{}); });
   nary<1>("optional::bind/some", 2, mk1, [](auto c0, auto &a) {
     return fcppt::optional::bind(FW(c0, a), [](auto &&x) { return oE{conv<E>{}(std::forward<decltype(x)>(x))}; });
@@ -1019,6 +1071,12 @@ void t_optional_binary()
       },
       both_or_none);
   nary<2>(
+      "optional::apply/2" C05_BYVAL, 4, mk2,
+      [](auto c0, auto c1, auto &a, auto &b) {
+        return fcppt::optional::apply([](E x, E y) { return std::make_pair(std::move(x), std::move(y)); }, FW(c0, a), FW(c1, b));
+      },
+      both_or_none, only_rvalues{});
+  nary<2>(
       "optional::maybe_multi/2", 4, mk2,
       [](auto c0, auto c1, auto &a, auto &b) {
         return fcppt::optional::maybe_multi(
@@ -1143,6 +1201,30 @@ void t_either_unary()
 {
   auto mk1 = [](case_t &cx, unsigned sh) { return std::make_tuple(mk_either(cx, sh == 1)); };
   nary<1>("either::map", 2, mk1, [](auto c0, auto &a) { return fcppt::either::map(FW(c0, a), conv<E>{}); });
+  nary<1>("either::map" C05_BYVAL, 2, mk1, [](auto c0, auto &a) { return fcppt::either::map(FW(c0, a), byval{}); }, keep_all{},
+          only_rvalues{});
+  nary<1>("either::map_failure" C05_BYVAL, 2, mk1, [](auto c0, auto &a) { return fcppt::either::map_failure(FW(c0, a), byval{}); },
+          keep_all{}, only_rvalues{});
+  nary<1>("either::bind" C05_BYVAL, 2, mk1,
+          [](auto c0, auto &a) { return fcppt::either::bind(FW(c0, a), [](E x) { return eFE{std::move(x)}; }); }, keep_all{},
+          only_rvalues{});
+  nary<1>("either::match" C05_BYVAL, 2, mk1,
+          [](auto c0, auto &a) {
+            using res = std::tuple<std::vector<F>, std::vector<E>>;
+            return fcppt::either::match(
+                FW(c0, a),
+                [](F f) {
+                  res r;
+                  std::get<0>(r).push_back(std::move(f));
+                  return r;
+                },
+                [](E x) {
+                  res r;
+                  std::get<1>(r).push_back(std::move(x));
+                  return r;
+                });
+          },
+          keep_all{}, only_rvalues{});
   nary<1>("either::map/to-other-type", 2, mk1, [](auto c0, auto &a) { return fcppt::either::map(FW(c0, a), conv<G>{}); });
   nary<1>("either::map_failure", 2, mk1, [](auto c0, auto &a) { return fcppt::either::map_failure(FW(c0, a), conv<F>{}); });
   nary<1>("either::map_failure/to-other-type", 2, mk1,
@@ -1464,6 +1546,17 @@ void t_variant()
         },
         FW(c0, a));
   });
+  nary<1>("variant::apply/1" C05_BYVAL, 3, mk1,
+          [](auto c0, auto &a) {
+            return fcppt::variant::apply(
+                [](auto x) {
+                  bins b;
+                  into_bins(b, std::move(x));
+                  return b;
+                },
+                FW(c0, a));
+          },
+          keep_all{}, only_rvalues{});
   nary<2>(
       "variant::apply/2", 9, [](case_t &cx, unsigned sh) { return std::make_tuple(mk_variant(cx, sh / 3U), mk_variant(cx, sh % 3U)); },
       [](auto c0, auto c1, auto &a, auto &b) {
@@ -1514,6 +1607,13 @@ void t_tuple()
 {
   auto mk3 = [](case_t &cx, unsigned) { return std::make_tuple(mk_tuple3(cx)); };
   nary<1>("tuple::map/3", 1, mk3, [](auto c0, auto &a) { return fcppt::tuple::map(FW(c0, a), conv_same{}); });
+  nary<1>("tuple::map/3" C05_BYVAL, 1, mk3, [](auto c0, auto &a) { return fcppt::tuple::map(FW(c0, a), byval{}); }, keep_all{},
+          only_rvalues{});
+  nary<1>("tuple::invoke" C05_BYVAL, 1, mk3,
+          [](auto c0, auto &a) {
+            return fcppt::tuple::invoke([](E x, F y, G z) { return std::make_tuple(std::move(x), std::move(y), std::move(z)); }, FW(c0, a));
+          },
+          keep_all{}, only_rvalues{});
   nary<1>("tuple::map/1", 1, [](case_t &cx, unsigned) { return std::make_tuple(tE{mk<E>(cx)}); },
           [](auto c0, auto &a) { return fcppt::tuple::map(FW(c0, a), conv_same{}); });
   nary<1>("algorithm::map<tuple->tuple>", 1, mk3, [](auto c0, auto &a) {
@@ -1669,6 +1769,8 @@ void t_record()
   auto mk1 = [](case_t &cx, unsigned) { return std::make_tuple(mk_rec_ab(cx)); };
   // record::map: map_result instantiates element_vector<Record &> for an lvalue record: only rvalues compile
   nary<1>("record::map", 1, mk1, [](auto c0, auto &a) { return fcppt::record::map(FW(c0, a), conv_same5{}); }, keep_all{}, only_rvalues{});
+  nary<1>("record::map" C05_BYVAL, 1, mk1, [](auto c0, auto &a) { return fcppt::record::map(FW(c0, a), byval{}); }, keep_all{},
+          only_rvalues{});
   nary<1>("record::map/to-optional", 1, mk1, [](auto c0, auto &a) {
     return fcppt::record::map(FW(c0, a), [](auto &&x) {
       using T = std::remove_cvref_t<decltype(x)>;
@@ -1746,6 +1848,10 @@ void t_array()
 {
   auto mk3 = [](case_t &cx, unsigned) { return std::make_tuple(mk_fa<E, 3>(cx)); };
   nary<1>("array::map<3>", 1, mk3, [](auto c0, auto &a) { return fcppt::array::map(FW(c0, a), conv<E>{}); });
+  nary<1>("array::map<3>" C05_BYVAL, 1, mk3, [](auto c0, auto &a) { return fcppt::array::map(FW(c0, a), byval{}); }, keep_all{},
+          only_rvalues{});
+  nary<1>("array::apply<3>/1" C05_BYVAL, 1, mk3, [](auto c0, auto &a) { return fcppt::array::apply(byval{}, FW(c0, a)); }, keep_all{},
+          only_rvalues{});
   nary<1>("array::map<3>/to-other-type", 1, mk3, [](auto c0, auto &a) { return fcppt::array::map(FW(c0, a), conv<F>{}); });
   nary<1>("array::map<1>", 1, [](case_t &cx, unsigned) { return std::make_tuple(mk_fa<E, 1>(cx)); },
           [](auto c0, auto &a) { return fcppt::array::map(FW(c0, a), conv<E>{}); });
@@ -1862,6 +1968,10 @@ void t_grid()
 {
   auto mk1 = [](case_t &cx, unsigned sh) { return std::make_tuple(mk_grid<gridE>(cx, grid_w[sh], grid_h[sh])); };
   nary<1>("grid::map", 5, mk1, [](auto c0, auto &a) { return fcppt::container::grid::map(FW(c0, a), conv<E>{}); });
+  nary<1>("grid::map" C05_BYVAL, 5, mk1, [](auto c0, auto &a) { return fcppt::container::grid::map(FW(c0, a), byval{}); }, keep_all{},
+          only_rvalues{});
+  nary<1>("grid::apply/1" C05_BYVAL, 5, mk1, [](auto c0, auto &a) { return fcppt::container::grid::apply(byval{}, FW(c0, a)); },
+          keep_all{}, only_rvalues{});
   nary<1>("grid::map/to-other-type", 5, mk1, [](auto c0, auto &a) { return fcppt::container::grid::map(FW(c0, a), conv<F>{}); });
   nary<1>("grid::apply/1", 5, mk1, [](auto c0, auto &a) { return fcppt::container::grid::apply(conv<E>{}, FW(c0, a)); });
   // apply with two grids: equal sizes -> every pair reaches the continuation; different sizes -> empty result
@@ -2148,6 +2258,399 @@ void vf_slice_6()
 }
 #endif
 
+// =================================================================================== slice 7
+#if VF_IN_SLICE(7)
+#include <fcppt/args_vector.hpp>
+#include <fcppt/either/object.hpp>
+#include <fcppt/optional/make.hpp>
+#include <fcppt/optional/object.hpp>
+#include <fcppt/options/apply.hpp>
+#include <fcppt/options/argument.hpp>
+#include <fcppt/options/flag.hpp>
+#include <fcppt/options/long_name.hpp>
+#include <fcppt/options/make_active_value.hpp>
+#include <fcppt/options/make_default_value.hpp>
+#include <fcppt/options/make_inactive_value.hpp>
+#include <fcppt/options/make_many.hpp>
+#include <fcppt/options/make_optional.hpp>
+#include <fcppt/options/option.hpp>
+#include <fcppt/options/optional_help_text.hpp>
+#include <fcppt/options/optional_short_name.hpp>
+#include <fcppt/options/parse.hpp>
+#include <fcppt/options/short_name.hpp>
+#include <fcppt/record/make_label.hpp>
+#include <fcppt/record/object.hpp>
+namespace
+{
+namespace o = fcppt::options;
+FCPPT_RECORD_MAKE_LABEL(oa);
+FCPPT_RECORD_MAKE_LABEL(ob);
+FCPPT_RECORD_MAKE_LABEL(oc);
+
+// parse and keep only a snapshot of the record (or the failure marker)
+template <class Parser>
+std::vector<int> parse_snap(Parser const &p, fcppt::args_vector const &args)
+{
+  auto r = o::parse(p, args);
+  std::vector<int> s;
+  if (r.has_success())
+  {
+    s.push_back(mk_success);
+    collect(r.get_success_unsafe(), s);
+  }
+  else
+    s.push_back(mk_failure);
+  return s;
+}
+#ifndef C05_MO
+using flagE = o::flag<oa, E>;
+using optionE = o::option<ob, E>;
+flagE mk_flag(case_t &cx, char const *name)
+{
+  E a = mk<E>(cx), b = mk<E>(cx);
+  return flagE{o::optional_short_name{}, o::long_name{name}, o::make_active_value(std::move(a)), o::make_inactive_value(std::move(b)),
+               o::optional_help_text{}};
+}
+optionE mk_option(case_t &cx, char const *name, bool with_default)
+{
+  using dflt = optionE::optional_default_value;
+  if (with_default)
+  {
+    E d = mk<E>(cx);
+    return optionE{o::optional_short_name{o::short_name{"o"}}, o::long_name{name},
+                   o::make_default_value(fcppt::optional::make(std::move(d))), o::optional_help_text{}};
+  }
+  return optionE{o::optional_short_name{o::short_name{"o"}}, o::long_name{name}, dflt{fcppt::optional::object<E>{}},
+                 o::optional_help_text{}};
+}
+}
+namespace c05
+{
+// the parsers have no accessor for the values they store: what they hold is what the parses deliver
+template <>
+struct collector<flagE>
+{
+  static void run(flagE const &f, std::vector<int> &out)
+  {
+    for (int v : parse_snap(f, fcppt::args_vector{"--f"}))
+      out.push_back(v);
+    for (int v : parse_snap(f, fcppt::args_vector{}))
+      out.push_back(v);
+  }
+};
+template <>
+struct collector<optionE>
+{
+  static void run(optionE const &p, std::vector<int> &out)
+  {
+    for (int v : parse_snap(p, fcppt::args_vector{}))
+      out.push_back(v);
+  }
+};
+}
+namespace
+{
+#endif
+template <class L>
+o::argument<L, E> mk_argument(char const *name)
+{
+  return o::argument<L, E>{o::long_name{name}, o::optional_help_text{}};
+}
+std::string tok(case_t &cx, std::vector<int> &want)
+{
+  want.push_back(cx.fresh());
+  return std::to_string(want.back());
+}
+
+#ifndef C05_MO
+void t_options_ctor()
+{
+  // flag: the active / inactive values travel through make_(in)active_value into the constructor
+  nary<2>(
+      "options::flag(active, inactive)", 1, [](case_t &cx, unsigned) { return std::make_tuple(mk<E>(cx), mk<E>(cx)); },
+      [](auto c0, auto c1, auto &a, auto &b) {
+        return flagE{o::optional_short_name{}, o::long_name{"f"}, o::make_active_value(FW(c0, a)), o::make_inactive_value(FW(c1, b)),
+                     o::optional_help_text{}};
+      });
+  nary<1>(
+      "options::option(default)", 1, [](case_t &cx, unsigned) { return std::make_tuple(mk<E>(cx)); },
+      [](auto c0, auto &d) {
+        return optionE{o::optional_short_name{}, o::long_name{"o"}, o::make_default_value(fcppt::optional::make(FW(c0, d))),
+                       o::optional_help_text{}};
+      });
+}
+
+#endif
+// One parse: the parser is a const lvalue argument (its stored values are lvalue elements: copies are
+// allowed, moves are not); the values extracted from the tokens are produced during the call and
+// must reach the result record uncopied, each exactly once.
+template <class Mk>
+void parse_case(std::string const &entry, unsigned nshapes, Mk mk_parser_and_args)
+{
+  for (unsigned sh = 0; sh < nshapes; ++sh)
+    run_case("options::parse<" + entry + ">", "C", "shape=" + std::to_string(sh), [&](case_t &cx) {
+      std::vector<int> want;
+      fcppt::args_vector args;
+      bool expect_success = true;
+      auto parser = mk_parser_and_args(cx, sh, args, want, expect_success);
+      std::string a;
+      for (auto const &t : args)
+        a += " " + t;
+      vf::extend_case(" args=[%s ]", a.c_str());
+      // everything the parser holds is an lvalue element
+      cx.begin();
+      auto r = o::parse(parser, args);
+      cx.end();
+      std::vector<int> s;
+      if (r.has_success())
+        collect(r.get_success_unsafe(), s);
+      if (r.has_success() != expect_success)
+        cx.viol("unexpected-parse-outcome", "mismatch", expect_success ? "parse failed" : "parse succeeded");
+      else
+        cx.result(s, &want);
+    });
+}
+
+#ifndef C05_MO
+void t_options_parse_values()
+{
+  parse_case("flag", 2, [](case_t &cx, unsigned sh, fcppt::args_vector &args, std::vector<int> &want, bool &) {
+    E a = mk<E>(cx), b = mk<E>(cx);
+    int const pa = a.peek(), pb = b.peek();
+    cx.set_role(pa, role::lv);
+    cx.set_role(pb, role::lv);
+    if (sh)
+      args.push_back("--f");
+    want.push_back(sh ? pa : pb);
+    return flagE{o::optional_short_name{}, o::long_name{"f"}, o::make_active_value(std::move(a)), o::make_inactive_value(std::move(b)),
+                 o::optional_help_text{}};
+  });
+  parse_case("option", 4, [](case_t &cx, unsigned sh, fcppt::args_vector &args, std::vector<int> &want, bool &ok) {
+    // 0: default used, 1: long name given, 2: short name given, 3: no default and missing -> failure
+    E d = mk<E>(cx);
+    int const pd = d.peek();
+    cx.set_role(pd, role::lv);
+    using dflt = optionE::optional_default_value;
+    optionE p{o::optional_short_name{o::short_name{"o"}}, o::long_name{"opt"},
+              sh == 3 ? dflt{fcppt::optional::object<E>{}} : o::make_default_value(fcppt::optional::make(std::move(d))),
+              o::optional_help_text{}};
+    if (sh == 0)
+      want.push_back(pd);
+    if (sh == 1)
+    {
+      args.push_back("--opt");
+      args.push_back(tok(cx, want));
+    }
+    if (sh == 2)
+    {
+      args.push_back("-o");
+      args.push_back(tok(cx, want));
+    }
+    ok = sh != 3;
+    return p;
+  });
+  parse_case("many(option)", 4, [](case_t &cx, unsigned n, fcppt::args_vector &args, std::vector<int> &want, bool &) {
+    for (unsigned i = 0; i < n; ++i)
+    {
+      args.push_back("--opt"); // (mixing -o and --opt in one pass is an error by design)
+      args.push_back(tok(cx, want));
+    }
+    return o::make_many(mk_option(cx, "opt", false));
+  });
+  parse_case("optional(option)", 2, [](case_t &cx, unsigned sh, fcppt::args_vector &args, std::vector<int> &want, bool &) {
+    if (sh)
+    {
+      args.push_back("--opt");
+      args.push_back(tok(cx, want));
+    }
+    return o::make_optional(mk_option(cx, "opt", false));
+  });
+  parse_case("apply(argument,option,flag)", 4,
+             [](case_t &cx, unsigned sh, fcppt::args_vector &args, std::vector<int> &want, bool &) {
+               E d = mk<E>(cx), a = mk<E>(cx), b = mk<E>(cx);
+               int const pd = d.peek(), pa = a.peek(), pb = b.peek();
+               for (int p : {pd, pa, pb})
+                 cx.set_role(p, role::lv);
+               args.push_back(tok(cx, want));
+               if (sh & 1U)
+               {
+                 args.push_back("--opt");
+                 args.push_back(tok(cx, want));
+               }
+               else
+                 want.push_back(pd);
+               if (sh & 2U)
+                 args.push_back("--f");
+               want.push_back((sh & 2U) ? pa : pb);
+               return o::apply(
+                   mk_argument<oc>("arg"),
+                   optionE{o::optional_short_name{}, o::long_name{"opt"}, o::make_default_value(fcppt::optional::make(std::move(d))),
+                           o::optional_help_text{}},
+                   flagE{o::optional_short_name{}, o::long_name{"f"}, o::make_active_value(std::move(a)),
+                         o::make_inactive_value(std::move(b)), o::optional_help_text{}});
+             });
+  parse_case("apply(optional(argument),many(option))", 4,
+             [](case_t &cx, unsigned sh, fcppt::args_vector &args, std::vector<int> &want, bool &) {
+               if (sh & 1U)
+                 args.push_back(tok(cx, want));
+               for (unsigned i = 0; i < (sh & 2U); ++i)
+               {
+                 args.push_back("--opt");
+                 args.push_back(tok(cx, want));
+               }
+               return o::apply(o::make_optional(mk_argument<oc>("arg")), o::make_many(mk_option(cx, "opt", false)));
+             });
+}
+#endif
+void t_options_parse_args()
+{
+  parse_case("argument", 2, [](case_t &cx, unsigned sh, fcppt::args_vector &args, std::vector<int> &want, bool &ok) {
+    if (sh)
+      args.push_back(tok(cx, want));
+    ok = sh != 0;
+    return mk_argument<oc>("arg");
+  });
+  parse_case("many(argument)", nmax() + 1, [](case_t &cx, unsigned n, fcppt::args_vector &args, std::vector<int> &want, bool &) {
+    for (unsigned i = 0; i < n; ++i)
+      args.push_back(tok(cx, want));
+    return o::make_many(mk_argument<oc>("arg"));
+  });
+  parse_case("optional(argument)", 2, [](case_t &cx, unsigned sh, fcppt::args_vector &args, std::vector<int> &want, bool &) {
+    if (sh)
+      args.push_back(tok(cx, want));
+    return o::make_optional(mk_argument<oc>("arg"));
+  });
+  parse_case("many(apply(argument,argument))", 4,
+             [](case_t &cx, unsigned n, fcppt::args_vector &args, std::vector<int> &want, bool &) {
+               for (unsigned i = 0; i < 2 * n; ++i)
+                 args.push_back(tok(cx, want));
+               return o::make_many(o::apply(mk_argument<oa>("x"), mk_argument<oc>("y")));
+             });
+}
+}
+void vf_slice_7()
+{
+#ifndef C05_MO
+  // option / flag values are copied out of the (const) parser by design: not part of the move-only build
+  t_options_ctor();
+  t_options_parse_values();
+#endif
+  t_options_parse_args();
+}
+#endif
+
+// =================================================================================== slice 8
+#if VF_IN_SLICE(8)
+#include <fcppt/either/object.hpp>
+#include <fcppt/optional/object.hpp>
+#include <fcppt/parse/base_impl.hpp>
+#include <fcppt/parse/char.hpp>
+#include <fcppt/parse/error_impl.hpp>
+#include <fcppt/parse/literal.hpp>
+#include <fcppt/parse/make_convert.hpp>
+#include <fcppt/parse/optional_impl.hpp>
+#include <fcppt/parse/parse_string.hpp>
+#include <fcppt/parse/repetition_impl.hpp>
+#include <fcppt/parse/repetition_plus_impl.hpp>
+#include <fcppt/parse/separator.hpp>
+#include <fcppt/parse/operators/alternative.hpp>
+#include <fcppt/parse/operators/optional.hpp>
+#include <fcppt/parse/operators/repetition.hpp>
+#include <fcppt/parse/operators/repetition_plus.hpp>
+#include <fcppt/parse/operators/sequence.hpp>
+#include <fcppt/tuple/object.hpp>
+#include <fcppt/variant/object.hpp>
+namespace
+{
+namespace ps = fcppt::parse;
+// Every parse result is produced by a convert function during the call; it must reach the final
+// result without a copy, exactly once.
+struct producer
+{
+  case_t *cx = nullptr;
+  std::vector<int> *made = nullptr;
+};
+template <class T>
+auto item_any(producer const &pr)
+{
+  return ps::make_convert(ps::char_{}, [pr](char &&) {
+    pr.made->push_back(pr.cx->fresh());
+    return T(make_t{}, pr.made->back());
+  });
+}
+template <class T>
+auto item_lit(producer const &pr, char c)
+{
+  return ps::make_convert(ps::literal{c}, [pr](fcppt::unit &&) {
+    pr.made->push_back(pr.cx->fresh());
+    return T(make_t{}, pr.made->back());
+  });
+}
+
+template <class MakeParser>
+void parse_run(std::string const &entry, std::vector<std::string> const &inputs, MakeParser make_parser)
+{
+  for (std::string const &in : inputs)
+    run_case("parse::" + entry, "C", "input=\"" + in + "\"", [&](case_t &cx) {
+      std::vector<int> made;
+      producer pr{&cx, &made};
+      auto const parser = make_parser(pr);
+      cx.begin();
+      auto r = ps::parse_string(parser, std::string(in));
+      cx.end();
+      std::vector<int> s;
+      if (r.has_success())
+        collect(r.get_success_unsafe(), s);
+      else
+        made.clear(); // whatever was produced before the failure is documented to be dropped
+      cx.result(s, &made);
+      vf::count(r.has_success() ? "parse/success" : "parse/failure");
+    });
+}
+
+void t_parse()
+{
+  parse_run("repetition(convert)", {"", "a", "ab", "abcde"}, [](producer const &pr) { return *item_any<E>(pr); });
+#ifndef C05_MO
+  {
+    // repetition_plus is neither named nor anchored by the property: observed only.  (It builds its
+    // result with `result_type{std::move(first)}`, an initializer_list construction that copies the first
+    // parsed value; with a move-only result type it does not compile.)
+    observed_scope const os;
+    parse_run("repetition_plus(convert)", {"", "a", "abc"}, [](producer const &pr) { return +item_any<E>(pr); });
+  }
+#endif
+  parse_run("sequence(convert,convert)", {"ab", "a", ""}, [](producer const &pr) { return item_any<E>(pr) >> item_any<F>(pr); });
+  parse_run("sequence(convert,convert,convert)", {"abc", "ab"},
+            [](producer const &pr) { return item_any<E>(pr) >> item_any<F>(pr) >> item_any<G>(pr); });
+  parse_run("sequence(convert,repetition(convert))", {"a", "abcd", ""},
+            [](producer const &pr) { return item_any<F>(pr) >> *item_any<E>(pr); });
+  parse_run("sequence(repetition,literal-convert)", {"aaax", "x"},
+            [](producer const &pr) { return *item_lit<E>(pr, 'a') >> item_lit<F>(pr, 'x'); });
+  parse_run("optional(convert)", {"", "a"}, [](producer const &pr) { return -item_any<E>(pr); });
+  parse_run("alternative(convert,convert)", {"a", "b", ""},
+            [](producer const &pr) { return item_lit<E>(pr, 'a') | item_any<F>(pr); });
+  parse_run("separator(convert,literal)", {"", "a", "a,b", "a,b,c,d"},
+            [](producer const &pr) { return ps::separator{item_lit<E>(pr, 'a') | item_lit<E>(pr, 'b') | item_lit<E>(pr, 'c') | item_lit<E>(pr, 'd'), ps::literal{','}}; });
+  // convert over tracked results: the inner result is handed to the function as an rvalue
+  parse_run("convert(convert)", {"a"}, [](producer const &pr) {
+    return ps::make_convert(item_any<E>(pr), [](E &&e) { return F(convert_t{}, std::move(e)); });
+  });
+  parse_run("convert(repetition)", {"", "abc"}, [](producer const &pr) {
+    return ps::make_convert(*item_any<E>(pr), [](std::vector<E> &&v) {
+      std::list<E> l;
+      for (E &e : v)
+        l.push_back(std::move(e));
+      return l;
+    });
+  });
+  parse_run("repetition(sequence(convert,convert))", {"", "ab", "abcd", "abc"},
+            [](producer const &pr) { return *(item_any<E>(pr) >> item_any<F>(pr)); });
+}
+}
+void vf_slice_8() { t_parse(); }
+#endif
+
 // =================================================================================== main
 #if VF_SLICE < 0
 void vf_slice_0();
@@ -2157,10 +2660,19 @@ void vf_slice_3();
 void vf_slice_4();
 void vf_slice_5();
 void vf_slice_6();
+void vf_slice_7();
+void vf_slice_8();
 namespace
 {
 void body()
 {
+  for (char const *b :
+       {"cases/judged", "cases/cat-R", "cases/cat-L", "cases/cat-C", "cases/cat-R,R", "cases/cat-L,R", "cases/cat-R,L", "cases/cat-C,R",
+        "cases/cat-R,C", "cases/cat-R,R,R", "cases/cat-subject", "cases/cat-subject,R", "cases/cat-subject,L", "events/move",
+        "events/copy-of-lvalue-element", "events/read", "events/compare", "events/hash", "events/assign", "elements/rvalue-moved",
+        "arguments/lvalue-unchanged-checks", "results/keep-all-checked", "ledger/objects-destroyed", "parse/success", "parse/failure",
+        "move-chain/2-3", "move-chain/4-7"})
+    vf::require_bucket(b);
   vf_slice_0();
   vf_slice_1();
   vf_slice_2();
@@ -2168,6 +2680,8 @@ void body()
   vf_slice_4();
   vf_slice_5();
   vf_slice_6();
+  vf_slice_7();
+  vf_slice_8();
 }
 }
 VF_MAIN(body)
